@@ -1022,7 +1022,70 @@ def case_chain_from(node: ast.If) -> List[Tuple[str, str]]:
     return out
 
 
+def r09j(ctx, rule='R09j'):
+    """The features calculator of a searchable layer is its own (out_features_eff, features_mask)
+    pair, chosen by the layer's *class* alone: consumers must see the alive features of the
+    tensor that reaches them whether or not the producer's mask is currently being trained
+    (train_features off, train_net_only, a hand-built non-trainable masker with pruned
+    channels).  A path of the per-method calculator hook that tests the state of the module
+    object (a search flag, a mask value) hands such a producer to the static rules, which
+    report its full width."""
+    repo = ctx.repo
+    n = 0
+    for hook in ('pit_features_calc', 'mps_features_calc'):
+        try:
+            fc = repo.fn(hook)
+        except Exception:
+            continue
+        n += 1
+        CLS = ('is_layer', 'is_inherited_layer', 'builtins.isinstance', 'builtins.type',
+               'builtins.issubclass')
+
+        def state_test(a) -> Optional[Term]:
+            """sub-term of the condition that reads the module object outside a class test"""
+            if a[0] in ('bool', 'un'):
+                for x in a[1:]:
+                    if isinstance(x, tuple):
+                        r = state_test(x)
+                        if r is not None:
+                            return r
+                    if isinstance(x, (list, tuple)) and x and isinstance(x[0], tuple):
+                        for y in x:
+                            if isinstance(y, tuple):
+                                r = state_test(y)
+                                if r is not None:
+                                    return r
+                return None
+            if a[0] == 'call' and any((callee(a) or '').endswith(c) for c in CLS):
+                return None
+            if mentions(a, lambda y: y[0] == 'call' and method_call(y) is not None and
+                        method_call(y)[1] == 'get_submodule'):
+                return a
+            return None
+        searchable = 0
+        for p in returning(paths(repo, fc)):
+            bad = None
+            for a, _v in p.assumptions:
+                bad = bad or state_test(a)
+            key = 'module calculator' if p.retval != NONE else 'no calculator'
+            searchable += p.retval != NONE
+            if bad is not None:
+                ctx.ob(rule, f'{hook}: {key} decided by the class of the layer', False,
+                       f'the path returning {short(p.retval, 60)} tests {short(bad, 90)}, a state '
+                       f'of the layer object: a searchable producer in that state is handed to '
+                       f'the static rules and its consumers see the full width instead of the '
+                       f'alive features', where(fc))
+            elif p.retval != NONE:
+                ctx.ob(rule, f'{hook}: {key} decided by the class of the layer', True,
+                       'class tests only', where(fc))
+        if hook == 'pit_features_calc':
+            ctx.floor(rule, 'paths of pit_features_calc that attach a module calculator',
+                      searchable, 1)
+    ctx.floor(rule, 'calculator hooks', n, 1)
+
+
 def run(ctx):
+    r09j(ctx)
     r09a(ctx)
     r09b(ctx)
     r09c(ctx)
